@@ -15,7 +15,9 @@ RULE = ('per (formula, signal set): BFS over ALL schedules, a schedule being a s
         'c_v >= 0 samples of every variable (not all zero); one transition = one real update() on a freshly parsed monitor replayed from '
         'the schedule prefix; states merged on (delivered counts, object-graph dump incl. last emitted sample), merges validated; invariant '
         'on every transition: emitted time-stamps never decrease and the concatenated output, read as a step function, equals the dense '
-        'reference (shifted by the horizon after pastify) at every grid time it covers; coverage (how far the output reaches) is not constrained')
+        'reference (shifted by the horizon after pastify) at every grid time it covers; coverage (how far the output reaches) is not constrained; '
+        'long layer: 70/71-sample signals, every schedule of at most two calls whose first call delivers (c_x, c_y) with c_v from a cut alphabet '
+        '(quick: around the 64th sample; thorough: every c_v in 0..71)')
 ASSUMPTIONS = ['signals: samples on the half-unit grid at fixed time sets, values in {-1,2}; formulas <= 2 operators (past, and pastified bounded future without until)',
                'reference = vf/dref.py on the complete signal (past formulas do not depend on later input)']
 
@@ -148,6 +150,43 @@ class ScheduleModel(object):
         return obj._vf_msg
 
 
+class TwoCallModel(ScheduleModel):
+    """long signals (about 70 samples per variable): the schedules are all pairs of calls - the first delivers (c_x, c_y) samples
+    with every c_v from CUTS, the second the rest - plus the single call that delivers everything"""
+    cuts = None
+
+    def enabled(self, hist):
+        p = self.pos(hist)
+        rest = tuple(self.n[i] - p[i] for i in range(len(self.vs)))
+        if hist:
+            return [rest] if any(rest) else []
+        return [st for st in itertools.product(*[[c for c in self.cuts if c <= self.n[i]] for i in range(len(self.vs))]) if any(st)]
+
+
+LONG_CUTS_QUICK = (0, 1, 2, 32, 63, 64, 65, 66, 67, 69, 70, 71)
+
+
+def long_formulas():
+    X, Y = F.X, F.Y
+    return [(('and', X, Y), False), (('and', ('once', (0, 2), X), Y), False), (('since', (0, 3), X, Y), False),
+            (('since', None, Y, X), False), (('historically', (1, 2), ('or', X, Y)), False), (('implies', Y, ('once', (1, 3), X)), False),
+            (('pred', '>=', ('+', X, Y), F.C1), False), (('and', ('eventually', (0, 2), X), Y), True), (('once', (0, 2), X), False)]
+
+
+def long_signal_sets():
+    """two variables with 70 and 71 samples (both orientations), values chosen so that every sample around the 64th matters"""
+    def times(n, half):
+        return [float(k) + (0.5 if (half and k % 3 == 1) else 0.0) for k in range(n)]
+    pats = {'p3': lambda k: 2.0 if k % 3 == 0 else -1.0, 'p2': lambda k: -1.0 if k % 2 else 2.0,
+            'late': lambda k: 2.0 if k in (64, 66, 69) else -1.0, 'alt': lambda k: -1.0 if k in (63, 65, 67, 70) else 2.0}
+    out = []
+    for nx, ny in ((70, 71), (71, 70)):
+        for px, py, half in (('p3', 'p2', False), ('late', 'alt', True), ('alt', 'p3', False)):
+            out.append({'x': tuple((t, pats[px](k)) for k, t in enumerate(times(nx, False))),
+                        'y': tuple((t, pats[py](k)) for k, t in enumerate(times(ny, half)))})
+    return out
+
+
 def formula_set(tier):
     quick = tier == 'quick'
     I = ((0, 1), (1, 2)) if quick else F.I_QUICK
@@ -195,6 +234,7 @@ def shards(tier):
     deep = [f for f in F.deep_formulas(PAST_U, ('since',), future=False) if not F.has_op(f, ('prev', 'rise'))]
     deep = deep[::4] if tier == 'quick' else deep
     out += [{'formulas': [(F.to_json(f), False)], 'deep': True} for f in deep]
+    out += [{'formulas': [(F.to_json(f), p)], 'long': True} for f, p in long_formulas()]
     return out
 
 
@@ -220,9 +260,14 @@ def run_shard(shard, tier, res):
         vs = sorted(F.fvars(f))
         text = 'out = ' + F.pr(f)
         res.formulas += 1
-        for sig in (deep_signal_sets(len(vs), tier) if shard.get('deep') else signal_sets(len(vs), tier)):
+        for sig in (long_signal_sets() if shard.get('long') else deep_signal_sets(len(vs), tier) if shard.get('deep')
+                    else signal_sets(len(vs), tier)):
             sig = {v: sig['x' if (v == 'y' and len(vs) == 1) else v] for v in vs}
-            m = ScheduleModel(f, text, vs, sig, pastify)
+            if shard.get('long'):
+                m = TwoCallModel(f, text, vs, sig, pastify)
+                m.cuts = LONG_CUTS_QUICK if tier == 'quick' else tuple(range(0, 72))
+            else:
+                m = ScheduleModel(f, text, vs, sig, pastify)
 
             def on_violation(hist, msg, m=m, sig=sig):
                 case = {'formula': fj, 'spec': text, 'vars': vs, 'pastify': pastify,
@@ -250,7 +295,7 @@ def run_shard(shard, tier, res):
 def check_case(case):
     f = F.from_json(case['formula'])
     sig = {v: [tuple(p) for p in s] for v, s in case['signals'].items()}
-    m = ScheduleModel(f, case['spec'], case['vars'], sig, case.get('pastify', False))
+    m = ScheduleModel(f, case['spec'], case['vars'], sig, case.get('pastify', False))   # replay follows the recorded schedule
     obj = m.fresh()
     hist = tuple(tuple(s) for s in case['schedule'])
     msgs = []
